@@ -7,7 +7,7 @@ import proto, gen, implutil
 THEOREMS = ['C13_epoch_rule', 'C13_unique_epoch', 'C13_membership', 'C13_partition', 'C13_shift_inverse', 'C13_single_labels', 'C13_list_labels']
 RULE = ("(a) epoch_df on cycle tables of generated signals (both centrings) with epoch lengths drawn at random AND chosen so that a closing side extremum falls exactly on a "
         "multiple of the epoch length; zeroed stretches give epochs without cycles; (b) compute_features_2d(axis=None) on 2-D arrays with one option set (None / dict) and "
-        "with per-epoch option lists (own thresholds per epoch), both burst methods; judge: Lean partition specification (each cycle exactly once, in the epoch containing its "
+        "with per-epoch option lists (own thresholds per epoch; partial dictionaries for later epochs: omitted keys take the defaults), both burst methods; judge: Lean partition specification (each cycle exactly once, in the epoch containing its "
         "closing side extremum, original order, feature values unchanged, sample indices shifted by the epoch start), labels of the flattened analysis for a single option set, "
         "re-labelling with the epoch's own thresholds for a list; distinct = distinct (signal, epoch length, options); non-trivial = >= 2 non-empty epochs")
 ASSUMPTIONS = ["per-epoch re-labelling is judged against the library's own detect_bursts_* applied to the expected epoch table (the detectors are C06/C07)"]
@@ -55,7 +55,15 @@ def _opts(c, e):
               'min_n_cycles': int(r.choice([1, 2, 3]))}
     else:
         th = {'burst_fraction_threshold': float(r.choice([0.5, 0.8, 1.0])), 'min_n_cycles': int(r.choice([1, 3]))}
+    if e >= 1 and (c['seed'] + e) % 3 == 0:       # a PARTIAL dictionary for a later epoch: the keys it omits take the documented DEFAULTS (not the first epoch's values)
+        keep = list(th)[int(r.integers(len(th))):][:2]
+        th = {k: th[k] for k in keep}
     return {'center_extrema': c['center'], 'burst_method': c['method'], 'threshold_kwargs': th}
+
+TH_DEFAULTS = {'amp_fraction_threshold': 0.0, 'amp_consistency_threshold': 0.5, 'period_consistency_threshold': 0.5, 'monotonicity_threshold': 0.8, 'min_n_cycles': 3,
+               'burst_fraction_threshold': 1.0}
+def _full(th):
+    return dict(TH_DEFAULTS, **th)
 
 def _cmp_tables(got, exp, info, tag):
     """list of DataFrames vs list of DataFrames"""
@@ -198,7 +206,7 @@ def evaluate(ctx, cases):
                 if judge_ok and c['kw'] in ('list', 'alias') and c['method'] == 'amp':
                     lr = []
                     for e, t in enumerate(p['got']):
-                        th = _opts(c, e if c['kw'] == 'list' else 0)['threshold_kwargs']
+                        th = _full(_opts(c, e if c['kw'] == 'list' else 0)['threshold_kwargs'])
                         lr.append('amp.spec %s %s %s' % (proto.enc_list([float(v) for v in t['burst_fraction'].values]), proto.enc_rat(th['burst_fraction_threshold']), proto.enc_rat(th['min_n_cycles'])))
                     for e, (a, t) in enumerate(zip(proto.run_driver(lr), p['got'])):
                         want = a[1] if isinstance(a, list) and a and a[0] == 'ok' else a
@@ -211,7 +219,7 @@ def evaluate(ctx, cases):
                     FE = ['amp_fraction', 'amp_consistency', 'period_consistency', 'monotonicity']
                     lr = []
                     for e, t in enumerate(p['got']):
-                        th = _opts(c, e if c['kw'] == 'list' else 0)['threshold_kwargs']
+                        th = _full(_opts(c, e if c['kw'] == 'list' else 0)['threshold_kwargs'])
                         rows = '[' + ','.join('[' + ','.join(proto.enc_rat(float(t[f].values[i])) for f in FE) + ']' for i in range(len(t))) + ']'
                         lr.append('cycles.spec %s [%s]' % (rows, ','.join(proto.enc_rat(th[k]) for k in [f + '_threshold' for f in FE] + ['min_n_cycles'])))
                     for e, (a, t) in enumerate(zip(proto.run_driver(lr), p['got'])):
